@@ -10,7 +10,7 @@ import struct
 from hypothesis import strategies as st
 
 from vf import cli, pins
-from vf.core import CaseFailed, EnumPart, HarnessError, HypPart, Oracle, SkipCase, VERIF_DIR, spsdk_frame
+from vf.core import CaseFailed, EnumPart, HarnessError, HypPart, Oracle, SkipCase, VERIF_DIR, case_digest, reorder, spsdk_frame
 from vf.gen import dbenum
 from vf.gen import keys as K
 from vf.ref import ahab_check as A
@@ -588,6 +588,8 @@ def run_case(case, o: Oracle) -> None:
               "containers": [{"srk_set": c["srk_set"], "keys": c["keys"]["t"], "used": c["used"], "mask": _mask(c), "cert": pc["cert"], "blob": bool(c["blob"]),
                               "images": [(hex(i["offset"]), i["size"], i["enc"]) for i in pc["images"]]} for c, pc in zip(conts, plan["containers"])]})
 
+    # the keys of every mapping of the configuration in an order picked with the case (a mapping has none)
+    cfg = reorder(cfg, int(case_digest(case)[:8], 16))
     # ---- the generated configuration satisfies the published schema
     if case["tamper"][0] % 5 == 0:  # compiling the schema costs as much as the rest of the case: sample
         with o.spsdk("schema"):
